@@ -172,8 +172,26 @@ class World:
         from mici.states import ChainState
 
         self.kind, self.assign_mode = kind, assign_mode
-        self.models = {s: zoo.Model(3, with_aux=with_aux, shift=0.25 * (s - 1)) for s in range(1, nsys + 1)}
-        self.systems = {s: zoo.make_system(kind, self.models[s], flavour=flavour) for s in self.models}
+        import copy as _copy
+
+        self.models = {1: zoo.Model(3, with_aux=with_aux)}
+        self.systems = {1: zoo.make_system(kind, self.models[1], flavour=flavour)}
+        if nsys > 1:
+            # the second system object is a DUPLICATE (deep copy) of the first one, taken after the first one
+            # has already been used, with a different target: two distinct system objects sharing states
+            scratch = ChainState(pos=_val(3, 901), mom=_val(3, 902), dir=1)
+            for m in TABLE_METHODS[kind][:4]:
+                try:
+                    getattr(self.systems[1], m)(scratch)
+                except Exception:  # noqa: BLE001
+                    pass
+            self.models[1].calls.clear()
+            s2, m2 = _copy.deepcopy((self.systems[1], self.models[1]))
+            m2.shift = 0.25
+            m2.calls.clear()
+            self.models[2], self.systems[2] = m2, s2
+            if id(s2) == id(self.systems[1]):
+                raise MachineryError("deepcopy returned the same system object")
         self.objs = {1: ChainState(pos=_val(3, 1), mom=_val(3, 501), dir=1)}
         self.nextver = 2
 
